@@ -227,6 +227,17 @@ theorem C08_decode_total_tied (adjust decodeLen bytesLen : Nat) (dec : Nat → A
     C08T.loop_done adjust decodeLen bytesLen dec hor hadj hlen (decodeLen + 1) 0 (Nat.zero_le _) (by omega)
   exact ⟨items, f, h, hf⟩
 
+/-- **`/asm/v1`, the whole request on the tied model.** `Asm.query` (length arithmetic, alignment, padded read
+through `read_bytes_at_relative_address` with `image_base.checked_add`, `decode_arch`, the decode loop) neither
+panics nor fails to terminate, for every architecture, image (any base, any sections / segments), symbol,
+request and decoder — provided only that the decoder stays inside the slice the read returns and that this slice
+is shorter than 4 GiB − 4 (a section of 4 GiB is outside what `object` hands out for the fixtures). -/
+theorem C08_asm_query_total_tied (arch : Asm.Arch) (img : Asm.Image) (sym : Option Asm.Sym) (req : Asm.Req)
+    (dec : Nat → Asm.Dec)
+    (hor : ∀ fo n, (Asm.plan arch img sym req).2.2 = .ok fo n → Asm.OracleOK n dec ∧ n + 4 ≤ Asm.u32max) :
+    Asm.query arch img sym req dec ≠ .panic ∧ Asm.query arch img sym req dec ≠ .nofuel :=
+  C08T.query_total arch img sym req dec hor
+
 /-- **The fine-grained decode kernel is the tied loop.** `PK.decodeLoop` follows asm/mod.rs:357-431 at the
 level of the reader (`total_offset` as `u32`, `after - before`, the reader re-created at `offset` after an
 invalid instruction); for every decoder that stays inside its slice it computes exactly the size that
